@@ -1,5 +1,5 @@
 """C29 sequence numbers wrap modulo 2^31 in client and kfake — SeqWindow.tla, binding R (behaviour replay)."""
-import json, os, re
+import hashlib, json, os, re
 from vlib import core
 LEVEL = "model_checking"
 
@@ -11,7 +11,58 @@ def behaviours(out):
     return res
 
 
+def scenarios(out):
+    """SeqClient.tla histories -> driver scenarios: batch sizes, and per transmission (first sequence, records, what happens to it)."""
+    scs = {}
+    for m in re.finditer(r'<<\s*"SCN",\s*(".*?")\s*>>', out, re.S):
+        hist = json.loads(json.loads(re.sub(r"\n\s*", "", m.group(1))))
+        sends = []
+        for i, e in enumerate(hist):
+            if e["e"] == "send":
+                nxt = hist[i + 1]["e"] if i + 1 < len(hist) else "ack"
+                sends.append({"s": e["s"], "n": e["n"], "fault": nxt if nxt in ("err", "lost") else ""})
+        sc = {"start": sends[0]["s"], "batches": [e["n"] for e in hist if e["e"] == "buffer"], "sends": sends}
+        scs[json.dumps(sc, sort_keys=True)] = sc
+    return [scs[k] for k in sorted(scs)]
+
+
+def client(ctx):
+    """the client's sequence state machine (seq / batch0Seq / rewind) across the wrap: SeqClient.tla, design + mutant + replay"""
+    ctx.design("SeqClient", "SeqClient_mc.cfg", timeout=900, tag="seqclient_mc")
+    m = ctx.tlc("SeqClient", "SeqClient_mut.cfg", workers=4, timeout=600, tag="seqclient_mut", allow_fail=True)
+    ctx.notes["design_mutant_rewind_only_if_seq_gt_batch0Seq_rejected"] = "SameSeq" in (m.violated or "") or "SameSeq is violated" in m.out
+    if ctx.replay and "scenario" in json.load(open(ctx.replay))["replay"]:
+        scs = [json.load(open(ctx.replay))["replay"]["scenario"]]
+    elif ctx.replay:
+        return
+    else:
+        r = ctx.tlc("SeqClient", "SeqClient_gen.cfg", workers=1, timeout=900, tag="seqclient_gen")
+        scs = scenarios(r.out)
+        if not scs:
+            raise core.Infra("TLC produced no client scenarios")
+        if ctx.tier == "quick":
+            scs = [s for i, s in enumerate(scs) if int(hashlib.sha1(b"%d/%d" % (ctx.seed, i)).hexdigest(), 16) % 4 == 0]
+    inp = os.path.join(ctx.work, "client_scenarios.ndjson")
+    core.write_ndjson(inp, scs)
+    rc, out = ctx.go_test("./c29/", run="TestClient", env={"VERIF_IN": inp, "VERIF_SEQMOD": 32}, tags="verif,synctests", timeout=1500)
+    res = ctx.go_results(out)
+    stats = [r for r in res if r.get("kind") == "stat"]
+    if len(stats) != 1:
+        raise core.Infra("client replayer did not finish:\n" + out[-2000:])
+    ctx.cov["evaluations"] = ctx.cov.get("evaluations", 0) + len(scs)
+    ctx.cov["distinct_nontrivial"] = ctx.cov.get("distinct_nontrivial", 0) + stats[0]["crossing_wrap"]
+    ctx.cov["traces_validated_against_impl"] = ctx.cov.get("traces_validated_against_impl", 0) + len(scs)
+    ctx.notes["client_replayer"] = stats[0]
+    ctx.sample(scs[len(scs) // 2])
+    for v in res:
+        if v.get("kind") == "viol":
+            ctx.violation(v["key"], v["what"], {"scenario": scs[v["beh"]], "detail": v})
+
+
 def run(ctx):
+    client(ctx)
+    if ctx.replay and "behaviour" not in json.load(open(ctx.replay))["replay"]:
+        return
     # design-level: invariants of the window model, exhaustive, history hidden by VIEW
     ctx.design("SeqWindow", "SeqWindow_mc.cfg", timeout=600)
     if ctx.replay:
@@ -35,19 +86,23 @@ def run(ctx):
         raise core.Infra("TLC produced no behaviours")
     inp = os.path.join(ctx.work, "behaviours.ndjson")
     core.write_ndjson(inp, uniq)
-    rc, out = ctx.go_test("./c29/", env={"VERIF_IN": inp, "VERIF_SEQMOD": 16})
+    rc, out = ctx.go_test("./c29/", run="TestReplay|TestBoundaryArithmetic", env={"VERIF_IN": inp, "VERIF_SEQMOD": 16})
     res = ctx.go_results(out)
     stats = [r for r in res if r.get("kind") == "stat"]
     if len(stats) != 2:
         raise core.Infra("replayer did not finish:\n" + out[-2000:])
     wraps = sum(1 for b in uniq if any(o["out"] == "append" and o["s"] >= 8 and o["next"] < 8 for o in b))
     dups = sum(1 for b in uniq if any(o["out"] == "dup" for o in b))
-    ctx.cov["evaluations"] = len(uniq)
-    ctx.cov["distinct_nontrivial"] = wraps
-    ctx.cov["traces_validated_against_impl"] = len(uniq)
+    ctx.cov["evaluations"] = ctx.cov.get("evaluations", 0) + len(uniq)
+    ctx.cov["distinct_nontrivial"] = ctx.cov.get("distinct_nontrivial", 0) + wraps
+    ctx.cov["traces_validated_against_impl"] = ctx.cov.get("traces_validated_against_impl", 0) + len(uniq)
     ctx.cov["rule"] = ("behaviours of SeqWindow.tla (SeqMod=16 standing for 2^31, window 5, n<=3, epochs 0..2): exhaustive to depth 3"
                        " + simulated depth 9; each replayed on kgo.incrementSequence, kfake pidwindow and a real kfake over the wire;"
-                       " non-trivial = behaviour contains an accepted batch that crosses the wrap point")
+                       " non-trivial = behaviour contains an accepted batch that crosses the wrap point."
+                       " Client state machine: every scenario of SeqClient.tla (SeqMod=32, 3 batches of 1..3 records starting 1..5 below the wrap, up to 2 faults:"
+                       " answer lost after append / retriable error without append)%s run on a real idempotent kgo producer against kfake with the partition's"
+                       " sequence placed below 2^31; every transmission's (first sequence, count) captured off the wire and compared with the specification's"
+                       % ("" if ctx.tier == "thorough" else ", a pseudo-random quarter of them by seed,"))
     ctx.notes["behaviours_with_duplicate_retry"] = dups
     ctx.notes["replayer"] = stats
     for b in uniq[:2]:
